@@ -79,6 +79,9 @@ class X12Base(object):
                 err_str = 'The ISA segment must have 16 elements ({})'.format(seg_data)
                 raise pyx12.errors.X12Error(err_str)
             interchange_control_number = seg_data.get_value('ISA13')
+            if self.loops:
+                err_str = 'ISA segment found inside an open {} loop'.format(self.loops[-1][0])
+                self._isa_error('024', err_str)
             if interchange_control_number in self.isa_ids:
                 err_str = 'ISA Interchange Control Number '
                 err_str += '{} not unique within file'.format(interchange_control_number)
@@ -90,6 +93,9 @@ class X12Base(object):
             self.isa_usage = seg_data.get_value('ISA15')
         elif seg_id == 'GS':
             group_control_number = seg_data.get_value('GS06')
+            if not self.loops or self.loops[-1][0] != 'ISA':
+                err_str = 'GS segment is not directly within an ISA loop'
+                self._isa_error('024', err_str)
             if group_control_number in self.gs_ids:
                 err_str = 'GS Interchange Control Number '
                 err_str += '{} not unique within file'.format(group_control_number)
@@ -103,6 +109,9 @@ class X12Base(object):
             self.hl_stack = []
             self.hl_count = 0
             transaction_control_number = seg_data.get_value('ST02')
+            if not self.loops or self.loops[-1][0] != 'GS':
+                err_str = 'ST segment is not directly within a GS loop'
+                self._isa_error('024', err_str)
             if transaction_control_number in self.st_ids:
                 err_str = 'ST Interchange Control Number '
                 err_str += '{} not unique within file'.format(transaction_control_number)
